@@ -607,7 +607,16 @@ class PrecipitateModel (PrecipitateBase):
             growthRate = np.zeros(self.PBM[p].bins + 1)
             return growthRate, xEqAlpha, xEqBeta
 
-        growth_result = self.therm.getGrowthAndInterfacialComposition(xComp, T, dGs[p] * self.precipitateParameters[p].volume.Vm, self.PBM[p].PSDbounds, self.particleGibbs(phase=self.precipitateParameters[p].phase), precPhase=self.precipitateParameters[p].phase, removeCache=self.removeCache, searchDir = self._precBetaTemp[p])
+        #Y.drivingForce is the volumetric driving force, where the elastic strain energy of the nucleus is already subtracted (see volumetricDrivingForce)
+        #The Gibbs-Thomson energy from particleGibbs also includes the strain energy (of each size class), so Vm * Y.drivingForce as the
+        #    driving force would count the strain energy twice and the growth rate would not change sign at the critical radius
+        #Add the strain energy back to get the chemical driving force: growth rate = mc/R * (chemical driving force - particleGibbs)
+        precParams = self.precipitateParameters[p]
+        nucAspectRatio = precParams.shapeFactor.aspectRatio(self.pData.Rcrit[self.pData.n, p])
+        nucStrainEnergy = precParams.strainEnergy.compute(precParams.shapeFactor.description.normalRadii(nucAspectRatio))
+        chemDG = (dGs[p] + nucStrainEnergy) * precParams.volume.Vm
+
+        growth_result = self.therm.getGrowthAndInterfacialComposition(xComp, T, chemDG, self.PBM[p].PSDbounds, self.particleGibbs(phase=precParams.phase), precPhase=precParams.phase, removeCache=self.removeCache, searchDir = self._precBetaTemp[p])
 
         #If two-phase equilibrium not found, two possibilities - precipitates are unstable or equilibrium calculations didn't converge
         #We try to avoid this as much as possible to where if precipitates are unstable, then attempt to get a growth rate from the nearest composition on the phase boundary
